@@ -48,6 +48,7 @@ def gateFires (hasData encoding : Bool) (iw ih : Int) (win : Win) : Gate → Boo
   | .noData => !hasData
   | .encoding => encoding
   | .size cw conn ch => connBool conn (cmpInt cw iw win.width) (cmpInt ch ih win.height)
+  | .zeroSize => decide (iw = 0) || decide (ih = 0)
   | .unknown _ => true
 
 /-- `Draw` reaches its placement code iff no gate returns. -/
@@ -63,7 +64,8 @@ def sixelOps (sw sh : Int) (mark : Cell) : List Op :=
   (upTo sh).flatMap fun y => (upTo sw).map fun x => { col := x, row := y, cell := mark }
 
 /-- `KittyImage.Draw` once encoding is done: is the placement recorded?  (Since the F120 repair the source has the
-    same size test as `Sixel.Draw`; before it, the list was `[.encoding]` — `Witness/F120.lean`.) -/
+    same size test as `Sixel.Draw`; before it, the list was `[.encoding]` — `Witness/F120.lean`.  Since the F520 repair
+    an image without cells is not placed either: `.zeroSize`.) -/
 def kittyDrawn (kw kh : Int) (win : Win) : Bool := drawnWith VaxisModel.Gen.ImageConsts.kittyGates true false kw kh win
 
 /-- The cells a `w × h` placement at the window's origin covers, relative to the window: `(dx, dy)` with
